@@ -133,9 +133,36 @@ func c53(c *Ctx) {
 			okSites[in] = true
 		}
 	}
-	c.Count(dfr, retByp.Where("not the first instruction of a positive-test branch", func(in ssa.Instruction) bool {
+	// (every edge into a bypass return is the true edge of one of the positive tests; the tests may share a
+	// return through `||`, so the block may have several predecessors)
+	c.Count(dfr, retByp.Where("entered by an edge that is not a positive test", func(in ssa.Instruction) bool {
 		b := in.Block()
-		return !(len(b.Instrs) > 0 && okSites[b.Instrs[0]] && len(b.Preds) == 1)
+		if len(b.Instrs) == 0 || !okSites[b.Instrs[0]] || len(b.Preds) == 0 {
+			return true
+		}
+		for _, p := range b.Preds {
+			ifi, isIf := p.Instrs[len(p.Instrs)-1].(*ssa.If)
+			if !isIf || p.Succs[0] == p.Succs[1] {
+				return true
+			}
+			positive := false
+			for _, f := range EdgeFactsOf(ifi, p.Succs[0] == b) {
+				if f.If != ifi {
+					continue
+				}
+				str := f.Atom.String()
+				switch {
+				case f.Atom.Kind == TRUE && (strings.HasPrefix(str, "Contains(") || strings.HasPrefix(str, "Equal(") || strings.HasPrefix(str, "HasSuffix(")):
+					positive = true
+				case f.Atom.Kind == EQ && len(f.Atom.L.Coef) == 2 && f.Atom.L.Coef["$0"] != 0 && (strings.Contains(str, "$r.bypassZones[") || strings.Contains(str, "$r.bypassHosts[")):
+					positive = true
+				}
+			}
+			if !positive {
+				return true
+			}
+		}
+		return false
 	}), 0, 0)
 	c.Count(dfr, retDef, 2, 2)
 	c.Count(dfr, Returns().Where("neither default nor bypass", func(in ssa.Instruction) bool {
